@@ -15,13 +15,15 @@ func init() {
 	register(&Check{
 		ID:  "C41",
 		Run: runC41,
-		Explanation: "Decides the stream discipline of the CLI: (R1 who-may-write stdout) writes to standard output — fmt.Print/Printf/Println, fmt.Fprint*(os.Stdout, …), os.Stdout.Write*, os.Stdout passed as a writer, log.New(os.Stdout, …) — occur only in the functions of the stdout table (cmd/pdfcpu result printing, the pkg/cli document writers that implement outFile \"-\", informational config/version commands) and in debug dumps proven unreachable from every exported pkg/api / pkg/cli entry point; everything the library logs goes through pkg/log loggers, whose default constructors write to os.Stderr; (R2 exit status) cmd/pdfcpu main exits with a non-zero constant whenever Execute() returns an error, every cobra command registers RunE (no Run), cli.Dispatch turns a panic into a returned error (its deferred closure stores into the error result); (R3 stdin integrity) readSeekerFromStdin reports success only if io.Copy from os.Stdin returned a nil error and at least one byte (a read fault after a partial read must not be treated as end of input), and streamInOutForOperation silences the CLI logger (log.SetCLILogger(nil)) on every path that hands out os.Stdout as the document writer. (R4 error accumulators) a handler that collects per-input errors in a slice returns, on every path after the first collection, either their join or a value reached only over the edge where the join was nil (a command that prints a partial JSON and exits 0 although an input failed is reported). (R5 stream/file siblings) in every exported pkg/cli handler that calls both a path-taking pkg/api function and a reader/writer-taking one (closures and unexported helpers folded in), each stream-side api function is reached inside pkg/api from one of the handler's file-side api functions, and each file-side function that wraps a stream api function has one of those called on the stream side: the file branch is a wrapper around the stream branch in all 60+ handlers of the pinned tree, and a handler whose '-' branch runs a different operation is reported by call site (one known finding: merge with '-' among the inputs runs api.MergeRaw). NOT decided: byte-equality of stream and file output beyond 'same operation', JSON validity of what is printed.",
+		Explanation: "Decides the stream discipline of the CLI: (R1 who-may-write stdout) writes to standard output — fmt.Print/Printf/Println, fmt.Fprint*(os.Stdout, …), os.Stdout.Write*, os.Stdout passed as a writer, log.New(os.Stdout, …) — occur only in the functions of the stdout table (cmd/pdfcpu result printing, the pkg/cli document writers that implement outFile \"-\", informational config/version commands) and in debug dumps proven unreachable from every exported pkg/api / pkg/cli entry point; everything the library logs goes through pkg/log loggers, whose default constructors write to os.Stderr; (R2 exit status) cmd/pdfcpu main exits with a non-zero constant whenever Execute() returns an error, every cobra command registers RunE (no Run), cli.Dispatch turns a panic into a returned error (its deferred closure stores into the error result); (R3 stdin integrity) readSeekerFromStdin reports success only if io.Copy from os.Stdin returned a nil error and at least one byte (a read fault after a partial read must not be treated as end of input), and streamInOutForOperation silences the CLI logger (log.SetCLILogger(nil)) on every path that hands out os.Stdout as the document writer. (R4 error accumulators) a handler that collects per-input errors in a slice returns, on every path after the first collection, either their join or a value reached only over the edge where the join was nil (a command that prints a partial JSON and exits 0 although an input failed is reported). (R5 stream/file siblings) in every exported pkg/cli handler that calls both a path-taking pkg/api function and a reader/writer-taking one (closures and unexported helpers folded in), each stream-side api function is reached inside pkg/api from one of the handler's file-side api functions, and each file-side function that wraps a stream api function has one of those called on the stream side: the file branch is a wrapper around the stream branch in all 60+ handlers of the pinned tree, and a handler whose '-' branch runs a different operation is reported by call site (one known finding: merge with '-' among the inputs runs api.MergeRaw). (R6) in every pkg/cli function with a bool parameter json, a return that hands back output lines lies behind a test of that parameter or forwards the result of a callee that receives the flag; (R7) len() of a types.IntSet page selection is compared with 0 or used as a capacity only: the set also holds deselected pages, so its length is not a page count (the stdout variant of extract -m page counts the true entries, like the file variant). NOT decided: byte-equality of stream and file output beyond 'same operation', JSON validity of what is printed.",
 		Rules: []string{
 			"C41.R1 WMC: standard output writers",
 			"C41.R2 MPT/shape: failing commands exit non-zero; panics become errors",
 			"C41.R4 flow: per-input errors collected by a handler reach its returned error on every path",
 			"C41.R3 MPT: stdin read errors are fatal; logger silenced when stdout carries the document",
 			"C41.R5 siblings: the stream branch and the file branch of a handler run the same pkg/api operation",
+			"C41.R6 MPT: in a handler with a json flag, output lines are returned only behind a test of the flag",
+			"C41.R7 shape: the length of a page selection set is used for emptiness tests and capacity hints only",
 		},
 		Assumptions: []string{"cobra calls RunE and hands its error to Execute's caller"},
 		Technique:   "who-may-call table with call-graph reachability for debug helpers; must-pass-through dataflow on error nil-edges; AST/SSA shape checks of command registration; sibling cross-check of stream/file branches over the pkg/api call graph",
@@ -64,6 +66,10 @@ func runC41(c *Ctx) {
 	checkErrorAccumulators(c)
 	r.MinInst["C41.R5"] = 100
 	checkStreamFileSiblings(c)
+	r.MinInst["C41.R6"] = 4
+	checkJSONFormatDecidedFirst(c)
+	r.MinInst["C41.R7"] = 8
+	checkSelectionSetLength(c)
 	// reachability from exported api/cli entry points (for debug dumps)
 	var roots []*ssa.Function
 	for _, fn := range p.Funcs {
